@@ -120,7 +120,7 @@ func init() {
 // generators
 
 var c20Scenarios = []string{
-	"prep-first", "prep-first-prove", "prep-repeat-prove", "prove-shared", "prove-range", "verify-shared", "cprng", "keygen", "keyproof",
+	"prep-first", "prep-first-prove", "prep-repeat-prove", "prep-refresh-prove", "prove-shared", "prove-range", "verify-shared", "cprng", "keygen", "keyproof",
 }
 
 // inflightRefreshOp: a session that spans a cache refresh (committed before, answered after the
@@ -776,6 +776,71 @@ func execC20Child(o Op) string {
 					}
 				})
 			})
+		}
+
+	case "prep-refresh-prove":
+		// the cache is prepared, the credential moves to the next accumulator, and then the cache is
+		// prepared AGAIN (which refreshes the commitment it holds) while provers use the credential:
+		// every proof verifies, no prepared commitment serves two proofs
+		env := c20NewEnv()
+		sk, pk := env.kp.sk, env.kp.pk
+		for it := 0; it < iters+2; it++ {
+			update := must(revocation.NewAccumulator(sk))
+			acc := must(update.SignedAccumulator.UnmarshalVerify(pk))
+			w := must(revocation.RandomWitness(sk, acc))
+			w.SignedAccumulator = update.SignedAccumulator
+			attrs := []*big.Int{bi(1001), bi(1002), bi(1003), w.E}
+			cred := &gabi.Credential{Signature: must(gabi.SignMessageBlock(sk, pk, attrs)), Pk: pk, Attributes: attrs, NonRevocationWitness: w}
+			if err := cred.NonrevPrepareCache(); err != nil {
+				errs.add("prepare:" + err.Error())
+			}
+			other := must(revocation.RandomWitness(sk, acc))
+			newAcc, ev, err := acc.Remove(sk, other.E, update.Events[len(update.Events)-1])
+			if err != nil {
+				errs.add("remove:" + err.Error())
+				continue
+			}
+			if err := cred.NonRevocationWitness.Update(pk, must(revocation.NewUpdate(sk, newAcc, []*revocation.Event{ev}))); err != nil {
+				errs.add("witness-update:" + err.Error())
+				continue
+			}
+			var mu sync.Mutex
+			seen := map[string]int{}
+			note := func(p *gabi.ProofD) {
+				if p != nil && p.NonRevocationProof != nil && p.NonRevocationProof.Cr != nil {
+					mu.Lock()
+					seen[p.NonRevocationProof.Cr.String()]++
+					mu.Unlock()
+				}
+			}
+			parallel(n, func(i int) {
+				guard(func() {
+					if i == 0 {
+						if err := cred.NonrevPrepareCache(); err != nil {
+							errs.add("prepare:" + err.Error())
+						}
+						return
+					}
+					p, err := env.prove(cred, true)
+					if err != nil {
+						errs.add("prove:" + err.Error())
+						return
+					}
+					note(p)
+					errs.add(env.verify(p, true))
+				})
+			})
+			for k := 0; k < 2; k++ {
+				if p, err := env.prove(cred, true); err == nil {
+					note(p)
+					errs.add(env.verify(p, true))
+				}
+			}
+			for _, c := range seen {
+				if c > 1 {
+					errs.add("a-prepared-nonrevocation-commitment-served-two-proofs")
+				}
+			}
 		}
 
 	case "prove-range":
